@@ -11,6 +11,26 @@ CHECKS = {
         text="TLC explores every stream up to the bound, every operation with every argument in every reachable state, checking the cursor invariants and action properties of the specification; each explored transition is replayed on the real object and all observations compared (transition coverage), and random traces of the real object are accepted step by step by the trace specification. Exhaustive within the bound on stream length; beyond it seeded traces.",
         note="Trusted: TLC, the harness's observation of token identity through distinct Value/Pos; match predicates limited to 4 subsets of 3 token kinds.",
         ref="4/C12, 3.2"),
+    "C03": dict(
+        technique="TLA+ spec StatefulLexer (+Regex, Position) model-checked by TLC over a family of rule maps x all inputs up to a bound; every run replayed into lexer.New(rules); Regex.tla self-checked against regexp",
+        text="One NextCall action per call of Next(); TLC enumerates every rule map of the family (curated maps per mechanism + seeded random) with every input up to the bound, evaluates the stream invariants in every state and prints the stream the rules define; each run is replayed on the real lexer and compared token by token (names, values, offsets, positions, error position), and the symbol table is compared with the specification's. Exhaustive over inputs within the bound for each map; the family of maps is a sample.",
+        note="Trusted: regexp/syntax Parse+Simplify for the pattern trees; Regex.tla's agreement with regexp is checked for every pattern of the run on all texts up to the bound (disagreement = exit 2). Underflow maps are left to C07.",
+        ref="4/C03, 3.4, 3.5"),
+    "C07": dict(
+        technique="TLA+ spec StatefulLexer model-checked by TLC incl. underflow / empty-match / missing-group maps and extra calls after EOF or error; liveness (termination) under weak fairness; every run replayed into the real lexer under recover + watchdog",
+        text="Same state machine as C03, explored on the maps C03 excludes too; invariants StackNonEmpty, NoPanic, FinishesWithinInput, action properties EofStutters and Progress, and the temporal property Terminates are checked by TLC; every run (plus further calls after termination) is executed on the real lexer, where any panic, hang, empty token, or moving EOF is a violation.",
+        note="Trusted: as C03. Generated lexers are exercised for the same clauses inside the C05 check.",
+        ref="4/C07, 3.5"),
+    "C04": dict(
+        technique="TLA+ spec Position (Advance folds to PosOf; TLC exhaustive, every step replayed on Position.Advance) and LexStream trace specification validating token events recorded from real stateful, simple and text/scanner lexers",
+        text="TLC proves on all inputs up to the bound and all span splittings that the incremental position update equals the position defined from the input alone, and each explored step is replayed on the real Position.Advance; token events of real lexers on all inputs up to the bound are accepted step by step by Trace_LexStream (value = input bytes at offset, increasing non-overlapping offsets, one EOF at the end, line/column = PosOf(offset), filename, lossless concatenation when nothing is dropped).",
+        note="Only successful lexes are judged. Generated lexers' streams are judged by the same trace specification inside C05.",
+        ref="4/C04, 3.3, 3.7"),
+    "C16": dict(
+        technique="TLA+ spec StatefulLexer (Expand, Symbols, RoundTripStable invariant) checked by TLC; marshalled documents compared with the specification's serialised form; MC_StatefulLexer expectations replayed against definitions rebuilt from both JSON routes",
+        text="TLC checks that include expansion is idempotent and the symbol table stable when expanded rules are fed back, and prints the serialised form and the expected streams; the harness compares json.Marshal(def) and json.Marshal(def.Rules()) with that form (order, byte-exact names and patterns, action kinds and targets), and replays all inputs up to the bound on lexer.New(unmarshal(...)) for both routes, comparing streams and symbol tables with the original.",
+        note="Trusted: encoding/json for decoding the documents; pattern trees as in C03.",
+        ref="4/C16, 3.5"),
 }
 
 NOT_YET = {}
